@@ -4,7 +4,7 @@
    observation of the whole world (Dim, ConstAt of every index, private map,
    AVL index keys, ConstIterator sequence of a clone — for every vector). *)
 From Coq Require Import ZArith List Bool.
-From ADV Require Import Base.Corr C11.Model.
+From ADV Require Import Base.Corr C11.Model C11.Spec C11.Dense.
 Import ListNotations.
 Open Scope Z_scope.
 
@@ -21,7 +21,13 @@ Fixpoint run_obs (w : world) (ops : list op) : list out :=
   end.
 
 Definition case := (list op * list out)%type.
-Definition check (c : case) : bool := list_eqb out_eqb (run_obs init (fst c)) (snd c).
+(* ... and, on the same history, the plain dense model next to the sparse model
+   (Dense.dense_diverge: world abstraction and values read after every in-range,
+   safe operation) — proved in general in Props.v, evaluated here as well so that
+   the executable [in_rangeb]/[safeb] side conditions are exercised on real histories *)
+Definition dense_ok (c : case) : bool :=
+  match dense_diverge 0 init [] (fst c) with None => true | Some _ => false end.
+Definition check (c : case) : bool := list_eqb out_eqb (run_obs init (fst c)) (snd c) && dense_ok c.
 Definition mism (cs : list case) : list nat := mismatches check cs.
 Definition diverge (c : case) : option nat := first_diff out_eqb 0 (run_obs init (fst c)) (snd c).
 (* full observation of the model after the first [n] operations (diagnosis) *)
